@@ -519,6 +519,12 @@ func sameGen(a, b genOutcome) bool {
 		return false
 	}
 	if a.err != "" {
+		// decoded but not serialisable again (a required field missing in a nested value, ...):
+		// compare the Go values themselves; their String() is no good for that, fmt prints
+		// several NaN keys of a map in no particular order
+		if a.obj != nil && b.obj != nil {
+			return goEqual(reflect.ValueOf(a.obj), reflect.ValueOf(b.obj))
+		}
 		return a.str == b.str
 	}
 	if !ref.Equal(a.val, b.val) {
